@@ -7,7 +7,7 @@ ID = "C23"
 VARIANTS = ["fast", "san"]
 BUDGET = {"quick": (700, 110), "thorough": (40000, 1500)}
 RULE = ("C01's Hypothesis scripts and option vectors incl. every query kind (models, values, assignments, cores, proofs, "
-        "interpolants); options whose purpose is to print time or memory are outside the domain. Each script is run twice on "
+        "interpolants) and, in 35% of the scripts, 1-4 rejected or unusual commands (rejected option settings, unknown symbols, queries in the wrong state, get-info/get-option); options whose purpose is to print time or memory are outside the domain. Each script is run twice on "
         "the fast build (and, for 20% of the cases, twice on the ASan/UBSan build) with address-space randomisation enabled, "
         "the second time with a different environment size and working directory (shifts stack and heap addresses). Oracle: "
         "stdout and exit status byte-identical within each build. Non-trivial = script with >= 1 check-sat and >= 1 query "
@@ -22,7 +22,18 @@ def generate(rnd, tier):
         lk = ["PROP", "QF_UF", "QF_LRA", "QF_LIA"]
     script, _, _ = gen.gen_script(rnd, tier, queries=True, named=0.6, tracking=tr, logic_keys=lk, max_hist=8,
                                   engines=rnd.random() < 0.25)
-    # more queries: tracking options on more often
+    if rnd.random() < 0.35:
+        # rejected and unusual commands: their diagnostics are output too (rejected option settings, unknown symbols, queries in
+        # the wrong state, get-info/get-option); all of them leave the solving state as it is
+        odd = ["(set-option :random-seed 0)", "(set-option :produce-proofs true)", "(set-option :produce-interpolants true)",
+               "(set-option :produce-unsat-cores true)", "(set-option :split-type nosuch)", "(set-option :split-units nosuch)",
+               "(set-option :nosuch-option 3)", "(set-option :verbosity 0)", "(get-option :random-seed)", "(get-option :nosuch)",
+               "(get-info :name)", "(get-info :version)", "(get-info :nosuch)", "(set-info :source |x y|)", "(assert undeclared_sym)",
+               "(assert (and true (undeclared_fun 1)))", "(get-value (undeclared_sym))", "(declare-fun w_odd () NoSuchSort)",
+               "(set-logic QF_UF)", "(pop 77)", "(echo \"odd\")", "(get-unsat-core)", "(get-model)", "(get-proof)",
+               "(set-option :interpolation-bool-algorithm 99)", "(set-option :ccmin-mode 9)", "(set-option :restart-inc 0.5)"]
+        for _ in range(rnd.randint(1, 4)):
+            script["cmds"].insert(rnd.randint(0, len(script["cmds"])), ("raw", rnd.choice(odd)))
     return {"script": script, "pad": rnd.randint(1, 4000), "san": rnd.random() < 0.2}
 
 
